@@ -15,6 +15,8 @@ struct CommitRec {
     author: usize,
     msg: MlsMessage,
     secrets: Option<Vec<u8>>,
+    /// the same commit re-signed by its author with a wrong confirmation tag (must be rejected by everybody)
+    bad: Option<MlsMessage>,
 }
 
 #[derive(Clone)]
@@ -30,6 +32,8 @@ enum Op {
     Apply(usize),
     ApplyDet(usize, usize),
     Deliver(usize, usize),
+    /// deliver the wrong-tag copy of commit k to member m: an error that changes nothing (not even a pending commit)
+    DeliverBad(usize, usize),
 }
 
 impl Op {
@@ -41,6 +45,7 @@ impl Op {
             Op::Apply(m) => format!("a{m}"),
             Op::ApplyDet(m, k) => format!("D{m}:{k}"),
             Op::Deliver(m, k) => format!("d{m}:{k}"),
+            Op::DeliverBad(m, k) => format!("x{m}:{k}"),
         }
     }
 }
@@ -77,12 +82,14 @@ fn apply_op<C: MlsConfig>(n: &mut Node<C>, op: Op) -> Result<(), String> {
     let r = std::panic::catch_unwind(std::panic::AssertUnwindSafe(|| -> Result<(), mls_rs::error::MlsError> {
         match op {
             Op::Build(m, false) => {
-                let out = n.groups[m].commit(vec![])?;
-                n.commits.push(CommitRec { author: m, msg: out.commit_message, secrets: None });
+                // through the builder (the entry point of every commit flavour); `Group::commit` is the same call
+                let out = if n.commits.len() % 2 == 0 { n.groups[m].commit_builder().build()? } else { n.groups[m].commit(vec![])? };
+                let bad = n.groups[m].verif_resign_commit(&out.commit_message, &mls_rs::verif::insider::InsiderEdit::SetConfirmationTag(vec![9u8; 32])).ok();
+                n.commits.push(CommitRec { author: m, msg: out.commit_message, secrets: None, bad });
             }
             Op::Build(m, true) => {
-                let (out, sec) = n.groups[m].commit_detached(vec![])?;
-                n.commits.push(CommitRec { author: m, msg: out.commit_message, secrets: Some(sec.to_bytes()?) });
+                let (out, sec) = if n.commits.len() % 2 == 0 { n.groups[m].commit_builder().build_detached()? } else { n.groups[m].commit_detached(vec![])? };
+                n.commits.push(CommitRec { author: m, msg: out.commit_message, secrets: Some(sec.to_bytes()?), bad: None });
             }
             Op::Clear(m) => n.groups[m].clear_pending_commit(),
             Op::Apply(m) => {
@@ -94,6 +101,10 @@ fn apply_op<C: MlsConfig>(n: &mut Node<C>, op: Op) -> Result<(), String> {
             }
             Op::Deliver(m, k) => {
                 n.groups[m].process_incoming_message(n.commits[k].msg.clone())?;
+            }
+            Op::DeliverBad(m, k) => {
+                let b = n.commits[k].bad.clone().ok_or(mls_rs::error::MlsError::UnexpectedMessageType)?;
+                n.groups[m].process_incoming_message(b)?;
             }
         }
         Ok(())
@@ -121,6 +132,9 @@ fn enabled<C: MlsConfig>(n: &Node<C>, active: usize) -> Vec<Op> {
         }
         for k in 0..n.commits.len() {
             v.push(Op::Deliver(m, k));
+            if n.commits[k].bad.is_some() && n.commits[k].author != m {
+                v.push(Op::DeliverBad(m, k));
+            }
         }
     }
     v
